@@ -5,7 +5,7 @@
 # patch to /repo itself, one after the other), several times faster.
 SLOTS="${1:-8}"
 cd /verif || exit 2
-ls -d seeded/C*/ | sed 's#seeded/##; s#/##' > /tmp/seeded.list
+if [ -n "$LIST" ]; then cp "$LIST" /tmp/seeded.list; else ls -d seeded/C*/ | sed "s#seeded/##; s#/##" > /tmp/seeded.list; fi
 i=0
 while [ $i -lt $SLOTS ]; do
   (
